@@ -158,7 +158,7 @@ def rand_plain(rnd, depth):
 
 def gen_cases(rnd, tier):
     cases = []
-    lens = c01.LENS_Q + c01.LENS_BOUNDARY + (c01.LENS_BIG if tier == "thorough" else [])
+    lens = c01.LENS_Q + c01.LENS_BOUNDARY + [1023, 1024, 4097] + (c01.LENS_BIG if tier == "thorough" else [])
     for name in CLS:
         if name == "L":
             # (lists of 65535 items are left out: the model re-measures the remaining input per item, quadratic under vm_compute;
